@@ -124,11 +124,11 @@ type c22Coin struct {
 type c22Registry struct {
 	coins   map[uint64]*c22Coin
 	count   uint64
-	active  map[string]uint64           // ticker -> id of the coin the bare ticker resolves to
-	owner   map[string]*types.Address   // ticker -> owner (absent: none)
+	active  map[string]uint64            // ticker -> id of the coin the bare ticker resolves to
+	owner   map[string]*types.Address    // ticker -> owner (absent: none)
 	usedVer map[string]map[uint64]uint64 // ticker -> version -> id
-	prevOwn map[string][]types.Address  // former owners (generation only)
-	recN    map[string]int              // number of recreations per ticker
+	prevOwn map[string][]types.Address   // former owners (generation only)
+	recN    map[string]int               // number of recreations per ticker
 }
 
 // MonRegistry implements C22.
@@ -360,6 +360,7 @@ func (m *MonRegistry) AfterTx(s *Sim, i int, raw []byte, meta *TxMeta, res *abci
 		m.newCoin(s, i, tags["tx.coin_id"], d.symbol, false, "recreate")
 		g.recN[d.symbol]++
 		m.Res.Count("accepted/recreate", 1)
+		m.Res.Sample(map[string]interface{}{"height": s.CurReq.Height, "op": "recreate", "ticker": d.symbol, "by": snd.String(), "old_id": oldID, "new_id": tags["tx.coin_id"], "recreations_of_ticker": g.recN[d.symbol]}, 3)
 	case tx.TypeEditCoinOwner:
 		state := "unknown-ticker"
 		if _, okk := g.active[d.symbol]; okk {
@@ -435,6 +436,7 @@ func (m *MonRegistry) AfterTx(s *Sim, i int, raw []byte, meta *TxMeta, res *abci
 		}
 		m.newCoin(s, i, tags["tx.pool_token_id"], sym, true, "create-pool")
 		m.Res.Count("accepted/create-pool", 1)
+		m.Res.Sample(map[string]interface{}{"height": s.CurReq.Height, "op": "create-pool", "pool_token": sym, "new_id": tags["tx.pool_token_id"], "registry_count": g.count}, 5)
 	}
 }
 
